@@ -4,3 +4,13 @@ CASES = [
     dict(id='c20-eq-isactive-local', prop='C20', file='src/celma/common/managed_thread.hpp', expect=None,
          old="   return mActive.load( std::memory_order_acquire);", new="   const bool  active = mActive.load( std::memory_order_acquire);\n   return active;"),
 ]
+
+MT = 'src/celma/common/managed_thread.hpp'
+CASES += [
+    dict(id='c20-dtor-joins-only-when-active', prop='C20', file=MT, expect='R2e',
+         old="   if (joinable())\n      join();", new="   if (joinable() && isActive())\n      join();"),
+    dict(id='c20-dtor-detaches', prop='C20', file=MT, expect='R2e',
+         old="   if (joinable())\n      join();", new="   if (joinable())\n      detach();"),
+    dict(id='c20-eq-dtor-early-return', prop='C20', file=MT, expect=None,
+         old="   if (joinable())\n      join();", new="   if (!joinable())\n      return;\n   join();"),
+]
